@@ -42,6 +42,9 @@ type spec struct {
 	N      int    `json:"n,omitempty"`
 	K      int    `json:"k,omitempty"`
 	Mode   string `json:"mode,omitempty"`
+	// Late: the receive limit is not the socket's when the listener is made but is set on the
+	// listener itself after Listen; connections accepted afterwards are held to it
+	Late bool `json:"late,omitempty"`
 }
 
 func TestMain(m *testing.M) { hx.Main(m) }
@@ -92,7 +95,7 @@ func TestC16(t *testing.T) {
 					if lim >= 1<<20 {
 						n = 6
 					}
-					cases = append(cases, mon.CaseSpec{Name: "sreal", Spec: spec{Kind: "sreal", Tr: tr, Role: role, Sock: s, Limit: lim, N: n}})
+					cases = append(cases, mon.CaseSpec{Name: "sreal", Spec: spec{Kind: "sreal", Tr: tr, Role: role, Sock: s, Limit: lim, N: n, Late: role == "listen" && lim > 0 && rnd.Intn(3) == 0}})
 				}
 			}
 		}
@@ -101,7 +104,7 @@ func TestC16(t *testing.T) {
 	for rep := 0; rep < r.Pick(12, 120); rep++ {
 		for _, tr := range []string{"ws", "wss"} {
 			for _, s := range deliverers {
-				cases = append(cases, mon.CaseSpec{Name: "wslim", Spec: spec{Kind: "wslim", Tr: tr, Role: "listen", Sock: s, Limit: []int{1, 64, 4096, 65536}[rnd.Intn(4)], N: 8}})
+				cases = append(cases, mon.CaseSpec{Name: "wslim", Spec: spec{Kind: "wslim", Tr: tr, Role: "listen", Sock: s, Limit: []int{1, 64, 4096, 65536}[rnd.Intn(4)], N: 8, Late: rnd.Intn(2) == 0}})
 			}
 		}
 	}
